@@ -493,6 +493,7 @@ def shards(tier, seed):
 
 
 def run_shard(ctx, shard):
+    np.random.seed(12345)          # the Rand constructors draw from NumPy's global generator: owned by the harness
     if shard[0] == 'd1':
         depth1(ctx, shard[1], shard[2])
         ctx.count('states', 1)
